@@ -16,8 +16,10 @@
   * `c33_keepalive_result_private`: the end of a keep-alive exchange — success, or stopped because
     the client left `active` — produces no API return and does not cancel the group; only a
     keep-alive exchange that ran out of retries (the gateway is gone) ends the client.
-  Known finding (recorded, not repaired): a `Ping()` of the application while a keep-alive
-  PINGREQ is unanswered takes over the single PINGREQ slot (see known_findings.json).
+  * `c33_ping_joins` (repaired defect, fix ccdec80): there is one PINGREQ exchange at a time — a ping
+    requested while one is in progress (the keep-alive's and the application's can meet) sends its
+    PINGREQ (`apiPing_open`: every ping puts exactly one PINGREQ on the wire) and waits for the
+    transaction in progress instead of replacing it in the slot.
 -/
 import Bisquitt.Props.C28
 
@@ -41,16 +43,36 @@ theorem c33_ticker_follows_state (c : Cl) (s : CState) (hk : c.cfg.ka ≠ 0) (ha
 @[simp] theorem proceed_now (c : Cl) (id : Nat) (k : TxKind) (p : Pkt) : (c.proceed id k p).now = c.now := by
   unfold proceed; split <;> (try split) <;> rfl
 
-theorem apiPing_open (c : Cl) (call : String) (ka : Bool) (ho : c.connClosed = false) :
-    (c.apiPing call ka).outs = (c.now, Out.sn (encode (.pingreq []))) :: c.outs ∧ (c.apiPing call ka).kaTick = c.kaTick := by
-  unfold apiPing
+theorem startPing_open (c : Cl) (call : String) (ka : Bool) (ho : c.connClosed = false) :
+    (c.startPing call ka).outs = (c.now, Out.sn (encode (.pingreq []))) :: c.outs ∧ (c.startPing call ka).kaTick = c.kaTick := by
+  unfold startPing
   simp only [newTx, send]
   have : ((({ c with txs := c.txs ++ [{ id := c.nextTx, kind := .ping ka, key := .ping }], nextTx := c.nextTx + 1 } : Cl).store
       .ping c.nextTx).proceed c.nextTx (.ping ka) (.pingreq [])).connClosed = false := by simp [store, ho]
   simp only [this, Bool.false_eq_true, if_false, if_true]
   simp [emit, store]
 
-/-- **C33.** A tick: next tick one period ahead; one PINGREQ unless one is outstanding. -/
+theorem joinPing_open (c : Cl) (call : String) (ka : Bool) (t : Tx) (ho : c.connClosed = false) :
+    (c.joinPing call ka t).outs = (c.now, Out.sn (encode (.pingreq []))) :: c.outs ∧ (c.joinPing call ka t).kaTick = c.kaTick := by
+  unfold joinPing
+  simp only [send]
+  have h1 : (if ka = true then c else c.setTx { t with kind := .ping false }).connClosed = false := by
+    split <;> simpa [setTx] using ho
+  simp only [h1, Bool.false_eq_true, if_false, if_true]
+  split <;> simp [emit, setTx]
+
+/-- every ping — the application's or the keep-alive's, starting an exchange or joining the one in
+    progress — puts exactly one PINGREQ on the wire -/
+theorem apiPing_open (c : Cl) (call : String) (ka : Bool) (ho : c.connClosed = false) :
+    (c.apiPing call ka).outs = (c.now, Out.sn (encode (.pingreq []))) :: c.outs ∧ (c.apiPing call ka).kaTick = c.kaTick := by
+  unfold apiPing
+  split
+  · exact joinPing_open c call ka _ ho
+  · exact startPing_open c call ka ho
+
+/-- **C33.** A tick: next tick one period ahead; one PINGREQ unless the keep-alive's own PINGREQ is
+    still outstanding. (A tick that finds an exchange of the application in progress sends its PINGREQ
+    and joins that exchange: one PINGRESP answers both.) -/
 theorem c33_tick (c : Cl) (t : Nat) (ho : c.connClosed = false) :
     (c.fireDue (.kaTick t)).kaTick = some (t + c.cfg.ka * 1000) ∧
     (c.kaPinging = true → (c.fireDue (.kaTick t)).outs = c.outs) ∧
@@ -65,6 +87,22 @@ theorem c33_tick (c : Cl) (t : Nat) (ho : c.connClosed = false) :
   · intro h
     simp only [h, Bool.false_eq_true, if_false]
     rw [(apiPing_open _ _ _ (by simpa using ho)).1]
+
+/-- **C33.** One PINGREQ exchange at a time: a ping that finds one in progress does not replace it in
+    the slot (no new transaction), it waits for the same transaction. -/
+theorem c33_ping_joins (c : Cl) (call : String) (ka : Bool) (t : Tx) (h : c.pingInProgress = some t)
+    (ho : c.connClosed = false) :
+    (c.apiPing call ka).nextTx = c.nextTx ∧ (c.apiPing call ka).slotPing = c.slotPing ∧
+    (c.apiPing call ka).waits = c.waits ++ [{ call := call, tx := t.id, kind := .plain }] := by
+  unfold apiPing
+  rw [h]
+  simp only
+  unfold joinPing
+  simp only [send]
+  have h1 : (if ka = true then c else c.setTx { t with kind := .ping false }).connClosed = false := by
+    split <;> simpa [setTx] using ho
+  simp only [h1, Bool.false_eq_true, if_false, if_true]
+  split <;> simp [emit, setTx]
 
 /-- the keep-alive exchange in progress, if any -/
 def Cl.kaPingTx (c : Cl) : Option Tx :=
